@@ -63,6 +63,26 @@ def _mc(res, work, side, l1, l2, alphabet, maxlen, tag):
     return out
 
 
+def _remix(rng, ops):
+    """second pass over a run's operations: sometimes one feed method for the whole run (so that the arena-backed
+    ones roll the arena over many times), sometimes the producer's shared arena ("shared": anchored slices of an
+    arena that outlives the call and is dropped at a random later moment)."""
+    policy = rng.random()
+    one = rng.choice(METHODS + ["shared", "shared"]) if policy < 0.35 else None
+    out = []
+    for op in ops:
+        if op["ev"] == "feed":
+            op = dict(op)
+            if one is not None:
+                op["m"] = one
+            elif rng.random() < 0.15:
+                op["m"] = "shared"
+        out.append(op)
+        if op["ev"] == "drain" and rng.random() < 0.3:
+            out.append({"ev": "drop_shared"})
+    return out
+
+
 def _ops_for(rng, piece_lens, drains=True):
     ops = []
     for n in piece_lens:
@@ -183,6 +203,8 @@ def run_small(res, work, tier, seed):
             m = rng.choice([1, 2, 3, 5, 8, 12])
             junk = [rng.choice([0, 1, 2, 3, l1, l2, l2 + 1, 252, FD, FE, 255, 7]) for _ in range(m)]
             add("dec", l1, l2, junk, _dec_ops(rng, m)[:-1] + [{"ev": "finish"}])
+    for r in runs:
+        r["ops"] = _remix(rng, r["ops"])
     runs.sort(key=lambda r: r["cfg"]["iid"])        # equal inputs adjacent (split-independence monitor)
     trace = core.drive("codec", runs, work, "codec_small")
     tv = tlc.validate_trace("HcobsTrace", "HcobsTrace.cfg", trace, os.path.join(work, "tv"), timeout=1800)
@@ -288,6 +310,10 @@ def _prod_segmentations(rng, n, tier):
         left -= k
     if lens:
         segs.append(lens)
+    if n >= 5000:
+        # many medium pieces: 65..256 bytes is the range where push() copies opportunistically
+        k = rng.choice([65, 128, 200, 256])
+        segs.append([k] * (n // k) + ([n % k] if n % k else []))
     return segs
 
 
@@ -379,6 +405,8 @@ def run_prod(res, work, tier, seed):
                                          "input": junk, "iid": 0},
                      "ops": fo + [{"ev": "finish"}]})
     # validate in batches (bounded TLC memory)
+    for r in runs:
+        r["ops"] = _remix(rng, r["ops"])
     runs.sort(key=lambda r: r["cfg"]["iid"])
     by_id = {r["run"]: r for r in runs}
     batch, size, bi = [], 0, 0
